@@ -88,13 +88,16 @@ fn template_body<const N: usize>(t: &[u8; N], kind: u8) { let s = from_template(
 
 //# {"id":"c06_map_desc_len0_2","props":["C06","C08"],"tier":"quick","cap":900,"bound":"every ASCII string of length 0, 1 and 2 as field / method / return descriptor (no L...; can be complete at this length); unwind 5","fns":["quill::remapper::map_desc","ARemapper::{map_field_desc,map_method_desc,map_return_desc,map_class}"]}
 //# {"id":"c06_map_desc_t_Lx","props":["C06","C08"],"tier":"quick","cap":900,"bound":"all strings L?; (? = any ASCII byte incl. L and ;): the mapped name a->bb, c->d, unmapped names, L;; and LL; ; unwind 6","lib":"verif","fns":["quill::remapper::map_desc","ARemapper::{map_field_desc,map_class}"]}
-//# {"id":"c06_map_desc_t_xLx","props":["C06","C08"],"tier":"quick","cap":1200,"bound":"all strings ?L?; as field descriptor (array / garbage prefix byte, one-byte name); unwind 7","lib":"verif","fns":["quill::remapper::map_desc","ARemapper::{map_field_desc,map_class}"]}
-//# {"id":"c06_map_desc_t_Lxx","props":["C06","C08"],"tier":"quick","cap":1200,"bound":"all strings L??; as return descriptor (two-byte names, early ;); unwind 7","lib":"verif","fns":["quill::remapper::map_desc","ARemapper::{map_return_desc,map_class}"]}
+//# {"id":"c06_map_desc_t_arr1","props":["C06","C08"],"tier":"quick","cap":900,"lib":"verif","bound":"all strings [[L?; as field descriptor; unwind 8","fns":["quill::remapper::map_desc","ARemapper::{map_field_desc,map_class}"]}
+//# {"id":"c06_map_desc_t_m1","props":["C06","C08"],"tier":"quick","cap":900,"lib":"verif","bound":"all strings (IL?;)V as method descriptor; unwind 10","fns":["quill::remapper::map_desc","ARemapper::{map_method_desc,map_class}"]}
+//# {"id":"c06_map_desc_t_two","props":["C06","C08"],"tier":"quick","cap":900,"lib":"verif","bound":"all strings La;L?; (a mapped name followed by a second, symbolic one) as return descriptor; unwind 9","fns":["quill::remapper::map_desc","ARemapper::{map_return_desc,map_class}"]}
+//# {"id":"c06_map_desc_t_xLx","props":["C06","C08"],"tier":"thorough","cap":3600,"bound":"all strings ?L?; as field descriptor (array / garbage prefix byte, one-byte name); unwind 7","lib":"verif","fns":["quill::remapper::map_desc","ARemapper::{map_field_desc,map_class}"]}
+//# {"id":"c06_map_desc_t_Lxx","props":["C06","C08"],"tier":"thorough","cap":3600,"bound":"all strings L??; as return descriptor (two-byte names, early ;); unwind 7","lib":"verif","fns":["quill::remapper::map_desc","ARemapper::{map_return_desc,map_class}"]}
 //# {"id":"c06_map_desc_t_Lx_x","props":["C06","C08"],"tier":"thorough","cap":2400,"bound":"all strings L?;? as field descriptor (a byte after the class name); unwind 7","lib":"verif","fns":["quill::remapper::map_desc","ARemapper::{map_field_desc,map_class}"]}
 //# {"id":"c06_map_desc_t_method","props":["C06","C08"],"tier":"thorough","cap":3000,"bound":"all strings (L?;)L?; as method descriptor (two names in one descriptor); unwind 11","lib":"verif","fns":["quill::remapper::map_desc","ARemapper::{map_method_desc,map_class}"]}
 //# {"id":"c06_map_desc_t_arr","props":["C06","C08"],"tier":"thorough","cap":3000,"bound":"all strings [[L?/?; as field descriptor (package-qualified name inside an array descriptor); unwind 10","lib":"verif","fns":["quill::remapper::map_desc","ARemapper::{map_field_desc,map_class}"]}
 //# {"id":"c06_map_desc_ascii3","props":["C06","C08"],"tier":"thorough","cap":3600,"bound":"every ASCII string of length 0..=3 as field / method / return descriptor; hash-free remapper a->bb, c->d; unwind 6 (exceeded 12 GB in every run so far: expected UNDECIDED)","fns":["quill::remapper::map_desc","ARemapper::{map_field_desc,map_method_desc,map_return_desc,map_class}"]}
-//# {"id":"c06_map_class_defaults","props":["C06"],"tier":"quick","cap":1200,"bound":"map_class / map_class_any on every valid ASCII class name of length 1..=3 (object names) and on array names [La; [Lx; [[I; unwind 8","lib":"verif","fns":["ARemapper::{map_class,map_class_any}","map_desc"]}
+//# {"id":"c06_map_class_defaults","props":["C06"],"tier":"thorough","cap":3600,"bound":"map_class / map_class_any on every valid ASCII class name of length 1..=3 (object names) and on array names [La; [Lx; [[I; unwind 8","lib":"verif","fns":["ARemapper::{map_class,map_class_any}","map_desc"]}
 proofs! {
 	#[cfg_attr(kani, kani::unwind(5))]
 	fn c06_map_desc_len0_2() {
@@ -107,6 +110,12 @@ proofs! {
 	}
 	#[cfg_attr(kani, kani::unwind(6))]
 	fn c06_map_desc_t_Lx() { template_body(b"L?;", 0); }
+	#[cfg_attr(kani, kani::unwind(8))]
+	fn c06_map_desc_t_arr1() { template_body(b"[[L?;", 0); }
+	#[cfg_attr(kani, kani::unwind(10))]
+	fn c06_map_desc_t_m1() { template_body(b"(IL?;)V", 1); }
+	#[cfg_attr(kani, kani::unwind(9))]
+	fn c06_map_desc_t_two() { template_body(b"La;L?;", 2); }
 	#[cfg_attr(kani, kani::unwind(7))]
 	fn c06_map_desc_t_xLx() { template_body(b"?L?;", 0); }
 	#[cfg_attr(kani, kani::unwind(7))]
